@@ -139,6 +139,14 @@ def gen_runs(rng, tier, cleanups=("n",), namings=None, sfxs=(b"log",), bg=False,
         # a directory as an earlier run (or a crash) may have left it
         kind = rng.choice(["gz-only", "gap", "no-current", "plain"])
         idxs = {"gz-only": [3, 7], "gap": [0, 2, 5], "no-current": [0, 1], "plain": [0]}[kind]
+        if naming in ("ts", "tsd"):
+            # restart siblings of the first time stamp of this history, around the point where the counter outgrows four digits
+            import datetime
+            infix = datetime.datetime.utcfromtimestamp(t0).strftime("r%Y-%m-%d_%H-%M-%S").encode()
+            for cnt in rng.choice([[9998, 9999], [9999, 10000], [9, 10000, 10001], [99999], [0]]):
+                nm = cfg0.name(infix + b".restart-%04d" % cnt)
+                ops.append("XC:%s:0:%s" % (hx(nm), hx(b"old%d\n" % cnt)))
+            idxs = []
         for i in idxs:
             if naming in ("num", "numd"):
                 nm = cfg0.name(b"r%05d" % i)
